@@ -94,7 +94,7 @@ def run_day(spec):
     for unit, exp in [('D', day0), ('h', DT(y, m, d, h)), ('m', DT(y, m, d, h, mi)), ('s', tsec),
                       ('ms', DT(y, m, d, h, mi, s, us - us % 1000)), ('us', t)] + ([('ns', t)] if o < O_NS_MAX else []):
         x = np.datetime64(exp, unit)
-        what = 'dt(np.datetime64(%r, %r))' % (str(exp), unit)
+        what = 'dt(np.datetime64(%r, %r))' % (exp, unit)
         _same(what, call(what, dt, x), exp)
     ts = pd.Timestamp(t)
     _same('dt(pd.Timestamp(%r))' % str(t), call('dt(pd.Timestamp(%r))' % str(t), dt, ts), t)
